@@ -92,6 +92,8 @@ def run_symgo(repo, cfg, ov, names, params, work, tag, timeout_s, extra=None):
                "-param", ",".join("%s=%d" % kv for kv in sorted(params.items())), "-timeout", "%ds" % timeout_s]
         if cfg.get("tlimit"):
             cmd += ["-tlimit", str(cfg["tlimit"])]
+        if cfg.get("instrs"):
+            cmd += ["-instrs", str(cfg["instrs"])]
         if extra:
             cmd += extra
         p = subprocess.run(cmd, env=GOENV, stdout=subprocess.PIPE, stderr=subprocess.PIPE, text=True)
